@@ -225,7 +225,10 @@ def oracle_midi(spec):
 
 # ---------------------------------------------------------------- note names
 ACC_STRINGS = {"": 0, "#": 1, "##": 2, "x": 2, "###": 3, "b": -1, "bb": -2, "bbb": -3}
-MIXED = ["x#", "#b", "b#", "xb", "xx", "#x", "bx", "####", "bbbb"]
+# every other string over the accidental alphabet of the grammar up to three signs, and two longer ones
+MIXED = [
+    "".join(t) for n in (1, 2, 3) for t in itertools.product("#bx", repeat=n) if "".join(t) not in ACC_STRINGS
+] + ["####", "bbbb"]
 
 
 # strings that contain no <pitch class>(alteration)<octave> anywhere: the parser documents ValueError for them
@@ -845,7 +848,8 @@ def known_ticks_int32(spec, d):
     if d.kind != "seconds-from-int32-ticks-wrong":
         return False
     mpq = d["detail"]["mpq"]
-    return isinstance(mpq, int) and spec.get("params") != "numpy" and any(k * mpq >= 2 ** 31 for k in d["detail"]["ks"])
+    numpy_mpq = spec.get("params") == "numpy" and spec.get("call") != "defaults"  # an int64 mpq widens the product
+    return isinstance(mpq, int) and not numpy_mpq and any(k * mpq >= 2 ** 31 for k in d["detail"]["ks"])
 
 
 # ---------------------------------------------------------------- frequency <-> midi
@@ -915,21 +919,21 @@ def oracle_freq(spec):
 
 
 SUBCHECKS = [
-    SubCheck("spelling_to_midi", oracle_spelling, enumerate=enum_spelling, shards=2, rule="all steps x alter None,-3..3 x octave -1..9 x letter case x (Python / numpy scalars); Note, its default alter and its accidental sign; non-trivial = altered"),
+    SubCheck("spelling_to_midi", oracle_spelling, enumerate=enum_spelling, shards=2, floors={'form:np': 0.4, 'note-lower-case-step': 0.4, 'alter-sign-read-back': 0.8, 'note-default-alter': 0.1}, rule="all steps x alter None,-3..3 x octave -1..9 x letter case x (Python / numpy scalars); Note, its default alter and its accidental sign; non-trivial = altered"),
     SubCheck(
         "spelling_format",
         oracle_format,
         enumerate=enum_format,
         shards=2,
-        rule="ensure_pitch_spelling_format: steps (upper, lower, rest, invalid) x alterations (ints, numpy ints, None, all accidental texts of the table, invalid texts) x octaves (int, numpy int, text, '-', None, invalid); non-trivial = text input",
+        floors={'alter:str': 0.5, 'alter:npint': 0.1, 'octave:str': 0.3, 'valid-format-input': 0.4, 'rest-step': 0.05}, rule="ensure_pitch_spelling_format: steps (upper, lower, rest, invalid) x alterations (ints, numpy ints, None, all accidental texts of the table, invalid texts) x octaves (int, numpy int, text, '-', None, invalid); non-trivial = text input",
     ),
-    SubCheck("midi_to_spelling", oracle_midi, enumerate=enum_midi, shards=1, rule="all MIDI pitches 0..127 as Python int, int32, int64; non-trivial = black key"),
+    SubCheck("midi_to_spelling", oracle_midi, enumerate=enum_midi, shards=1, floors={'form:int32': 0.3, 'form:int64': 0.3}, rule="all MIDI pitches 0..127 as Python int, int32, int64; non-trivial = black key"),
     SubCheck(
         "note_names",
         oracle_names,
         enumerate=enum_names,
         shards=2,
-        rule="all [A-G] x accidental strings x octaves; strings outside the grammar; alteration None; non-trivial = with accidental",
+        floors={'outside-grammar': 0.02}, rule="all [A-G] x accidental strings x octaves; strings outside the grammar; alteration None; non-trivial = with accidental",
         known={"note-name-alter-none": known_note_name_alter_none},
     ),
     SubCheck(
@@ -937,19 +941,19 @@ SUBCHECKS = [
         oracle_keys,
         enumerate=enum_keys,
         shards=1,
-        rule="fifths -12..12 x (6 accepted + 7 unknown mode spellings, mode omitted) x (Python values positionally / int32 by keyword), the 30 key names and the 28 names of 8..14 sharps or flats; non-trivial = minor, out of range or unknown mode",
+        floors={'form:np32': 0.3, 'mode-omitted': 0.02, 'name-beyond-the-thirty': 0.03}, rule="fifths -12..12 x (6 accepted + 7 unknown mode spellings, mode omitted) x (Python values positionally / int32 by keyword), the 30 key names and the 28 names of 8..14 sharps or flats; non-trivial = minor, out of range or unknown mode",
         known={"fifths-below-minus-7-wrap": known_fifths_wrap},
     ),
     SubCheck("mode_clef_codes", oracle_codes, enumerate=enum_codes, shards=1, rule="all mode spellings and clef signs/codes, codes also as numpy integers"),
-    SubCheck("durations_tempo_units", oracle_durs, enumerate=enum_durs, shards=4, rule="types x dots 0..3 x tuplet ratios x 17 divisions; tuplet multipliers for all type pairs and without types; tempo units x dots (also with blanks, as Tempo objects, Tempo without unit); non-trivial = dotted/tuplet/non-quarter unit"),
-    SubCheck("intervals", oracle_intervals, enumerate=enum_intervals, shards=1, rule="numbers 1..7 x qualities (valid and invalid) x directions (also omitted), compound numbers 8..15; non-trivial = valid and not P/M"),
+    SubCheck("durations_tempo_units", oracle_durs, enumerate=enum_durs, shards=4, floors={'tuplet-types-differ': 0.5, 'unit-with-blanks': 0.03, 'tempo-object-long-unit-name': 0.08}, rule="types x dots 0..3 x tuplet ratios x 17 divisions; tuplet multipliers for all type pairs and without types; tempo units x dots (also with blanks, as Tempo objects, Tempo without unit); non-trivial = dotted/tuplet/non-quarter unit"),
+    SubCheck("intervals", oracle_intervals, enumerate=enum_intervals, shards=1, floors={'direction-omitted': 0.15, 'compound-number': 0.15}, rule="numbers 1..7 x qualities (valid and invalid) x directions (also omitted), compound numbers 8..15; non-trivial = valid and not P/M"),
     SubCheck("tables", oracle_tables, enumerate=enum_tables, shards=1, rule="agreement of the independent pitch tables"),
     SubCheck(
         "frequency",
         oracle_freq,
         enumerate=enum_freq,
         shards=2,
-        rule="MIDI 0..127 x six A4 values and the default, scalars of every numeric type and arrays; non-trivial = A4 != 440",
+        floors={'a4-omitted': 0.1}, rule="MIDI 0..127 x six A4 values and the default, scalars of every numeric type and arrays; non-trivial = A4 != 440",
         known={"frequency-float32-scalar-none": known_freq_float32_none},
     ),
     SubCheck(
